@@ -55,7 +55,7 @@ theorem merge_parts_in_vocab (V : Vocab) (rs : Str) (h1 : ∀ r ∈ rs, (V.tokId
     `Decode (Encode s) = s`. -/
 theorem bpe_roundtrip (pinned : Bool) (V : Vocab) (split : Str → List Str) (specials : List Special)
     (s : Str) (hwf : V.Wf) (hcov : V.CoversBytes pinned)
-    (hsplit : ∀ t, (split t).flatten = t)
+    (hsplit : ∀ t, Frag.text t ∈ fragments specials s → (split t).flatten = t)
     (hsp : ∀ q ∈ specials, decodeRunes (V.tokStr q.id) = q.lit)
     (hs : ∀ b ∈ s, byteOk pinned b) :
     bpeDecode V (bpeEncode pinned V split specials noAdd s) = s := by
@@ -63,7 +63,7 @@ theorem bpe_roundtrip (pinned : Bool) (V : Vocab) (split : Str → List Str) (sp
   have hadd : ∀ ids, addSpecials noAdd ids = ids := by intro ids; simp [addSpecials, noAdd]
   rw [hadd, bpeFrags_roundtrip pinned V split hwf hcov, fragments_lit]
   · intro t ht
-    refine ⟨hsplit t, fun b hb => hs b ?_⟩
+    refine ⟨hsplit t ht, fun b hb => hs b ?_⟩
     have := mem_fragsLit_of_text _ t ht b hb
     rwa [fragments_lit] at this
   · intro q hq
@@ -72,7 +72,7 @@ theorem bpe_roundtrip (pinned : Bool) (V : Vocab) (split : Str → List Str) (sp
 /-- **BPE round trip for the repaired switch: every text without NUL bytes.** -/
 theorem bpe_roundtrip_fixed (V : Vocab) (split : Str → List Str) (specials : List Special)
     (s : Str) (hwf : V.Wf) (hcov : V.CoversBytes false)
-    (hsplit : ∀ t, (split t).flatten = t)
+    (hsplit : ∀ t, Frag.text t ∈ fragments specials s → (split t).flatten = t)
     (hsp : ∀ q ∈ specials, decodeRunes (V.tokStr q.id) = q.lit)
     (hs : ∀ b ∈ s, b < 256 ∧ b ≠ 0) :
     bpeDecode V (bpeEncode false V split specials noAdd s) = s :=
@@ -143,9 +143,9 @@ theorem bpe_special_literal (pinned : Bool) (V : Vocab) (split : Str → List St
 
 /-! ## SentencePiece -/
 
-theorem spmFrags_decode (V : Vocab) (hwf : V.Wf) (hbt : V.HasByteTokens)
-    (hsep : (V.tokId [sepRune]).isSome = true) (frs : List Frag)
-    (htext : ∀ t, Frag.text t ∈ frs → (∀ r ∈ t, r < 0x110000) ∧ sepRune ∉ t ∧ NoByteLit t)
+theorem spmFrags_decode (V : Vocab) (hwf : V.Wf) (hbt : V.HasByteTokens) (frs : List Frag)
+    (htext : ∀ t, Frag.text t ∈ frs → (32 ∈ t → (V.tokId [sepRune]).isSome = true) ∧
+      (∀ r ∈ t, r < 0x110000) ∧ sepRune ∉ t ∧ NoByteLit V t)
     (hsp : ∀ q, Frag.special q ∈ frs → spmDecodeTok V q.id = some (utf8s q.lit)) :
     spmDecode V (frs.flatMap (spmFrag V)) = some (utf8s (fragsLit frs)) := by
   induction frs with
@@ -158,22 +158,23 @@ theorem spmFrags_decode (V : Vocab) (hwf : V.Wf) (hbt : V.HasByteTokens)
     apply spmDecode_append V _ _ _ _ _ hr
     cases fr with
     | text t =>
-      obtain ⟨h1, h2, h3⟩ := htext t (by simp)
-      exact spmText_decode V hwf hbt hsep t h1 h2 h3
+      obtain ⟨h0, h1, h2, h3⟩ := htext t (by simp)
+      exact spmText_decode V hwf hbt t h0 h1 h2 h3
     | special q =>
       have := hsp q (by simp)
       simp [spmFrag, spmDecode, this, Frag.lit]
 
 /-- **SentencePiece round trip, partial.**  For every well-formed vocabulary that has the 256 byte
-    tokens and the token `▁`, every list of special tokens (vocabulary string = literal) and every
-    text (as code points, all valid) that (guard 1) does not itself contain U+2581 and (guard 2) has no
-    contiguous piece whose UTF-8 is a byte-token literal `<0x??>`:
+    tokens (and the token `▁` if the text contains a space), every list of special tokens
+    (vocabulary string = literal, not of the byte-token shape) and every text (as code points, all valid) that
+    (guard 1) does not itself contain U+2581 and (guard 2) has no contiguous piece that is BOTH a token of
+    the vocabulary and a byte-token literal `<0x??>`:
     `Decode (Encode s)` is the UTF-8 encoding of `s`.
     Both guards are necessary (witnesses below): they are inherent to the scheme. -/
 theorem spm_roundtrip_partial (V : Vocab) (specials : List Special) (s : Str)
-    (hwf : V.Wf) (hbt : V.HasByteTokens) (hsep : (V.tokId [sepRune]).isSome = true)
-    (hsp : ∀ q ∈ specials, V.tokStr q.id = q.lit)
-    (hvalid : ∀ r ∈ s, r < 0x110000) (hnosep : sepRune ∉ s) (hnolit : NoByteLit s) :
+    (hwf : V.Wf) (hbt : V.HasByteTokens) (hsep : 32 ∈ s → (V.tokId [sepRune]).isSome = true)
+    (hsp : ∀ q ∈ specials, V.tokStr q.id = q.lit ∧ parseByteTok (utf8s q.lit) = none)
+    (hvalid : ∀ r ∈ s, r < 0x110000) (hnosep : sepRune ∉ s) (hnolit : NoByteLit V s) :
     spmDecode V (spmEncode V specials noAdd s) = some (utf8s s) := by
   unfold spmEncode
   have hadd : ∀ ids, addSpecials noAdd ids = ids := by intro ids; simp [addSpecials, noAdd]
@@ -183,18 +184,17 @@ theorem spm_roundtrip_partial (V : Vocab) (specials : List Special) (s : Str)
     obtain ⟨a, b, hab⟩ := mem_flatten_split _ fr.lit (List.mem_map.mpr ⟨fr, hfr, rfl⟩)
     refine ⟨a, b, ?_⟩
     rw [← hab]; exact hfl.symm
-  rw [hadd, spmFrags_decode V hwf hbt hsep, hfl]
+  rw [hadd, spmFrags_decode V hwf hbt, hfl]
   · intro t ht
     obtain ⟨a, b, hab⟩ := hpiece _ ht
     simp only [Frag.lit] at hab
-    refine ⟨fun r hr => hvalid r (by rw [hab]; simp [hr]), fun h => hnosep (by rw [hab]; simp [h]),
-      hnolit.infix a t b hab⟩
+    refine ⟨fun h => hsep (by rw [hab]; simp [h]), fun r hr => hvalid r (by rw [hab]; simp [hr]),
+      fun h => hnosep (by rw [hab]; simp [h]), hnolit.infix a t b hab⟩
   · intro q hq
     obtain ⟨a, b, hab⟩ := hpiece _ hq
     simp only [Frag.lit] at hab
     have hno : sepRune ∉ q.lit := fun h => hnosep (by rw [hab]; simp [h])
-    have hstr := hsp q (fragments_from specials s _ hq q rfl)
-    have hnl : parseByteTok (utf8s q.lit) = none := hnolit a q.lit b hab
+    obtain ⟨hstr, hnl⟩ := hsp q (fragments_from specials s _ hq q rfl)
     simp [spmDecodeTok, hstr, map_sepToSpace_id q.lit hno, hnl]
 
 /-- every id produced for a text fragment is the id of some vocabulary string -/
